@@ -119,7 +119,7 @@ func body(t *Term) string {
 		sb.WriteString(")")
 		return sb.String()
 	case OSelect:
-		return fmt.Sprintf("(select %s %s)", symName(t.Name), a(0))
+		return fmt.Sprintf("(%s %s)", symName(t.Name), a(0))
 	}
 	n, ok := opNames[t.Op]
 	if !ok {
@@ -135,15 +135,8 @@ func body(t *Term) string {
 }
 
 func tableDef(tab *Table) string {
-	// default = most frequent value
-	freq := map[uint64]int{}
-	best, bestN := uint64(0), -1
-	for _, v := range tab.Vals {
-		freq[v]++
-		if freq[v] > bestN {
-			best, bestN = v, freq[v]
-		}
-	}
+	// A constant table is a function defined by a binary decision tree over the index
+	// bits (bit-blasts directly; z3's array theory is very slow on long store chains).
 	lit := func(s Sort, v uint64) string {
 		if s.K == SBool {
 			if v != 0 {
@@ -153,23 +146,24 @@ func tableDef(tab *Table) string {
 		}
 		return bvLit(s.W, v)
 	}
-	asort := fmt.Sprintf("(Array %s %s)", tab.Idx, tab.Elt)
-	var sb strings.Builder
-	n := 0
-	for i, v := range tab.Vals {
-		if v != best {
-			n++
-			_ = i
+	w := tab.Idx.W
+	var build func(lo, hi, bit int) string
+	build = func(lo, hi, bit int) string {
+		// entries lo..hi-1 (hi-lo is a power of two = 2^(bit+1))
+		same := true
+		for k := lo + 1; k < hi; k++ {
+			if tab.Vals[k] != tab.Vals[lo] {
+				same = false
+				break
+			}
 		}
-	}
-	sb.WriteString(strings.Repeat("(store ", n))
-	fmt.Fprintf(&sb, "((as const %s) %s)", asort, lit(tab.Elt, best))
-	for i, v := range tab.Vals {
-		if v != best {
-			fmt.Fprintf(&sb, " %s %s)", bvLit(tab.Idx.W, uint64(i)), lit(tab.Elt, v))
+		if same || bit < 0 {
+			return lit(tab.Elt, tab.Vals[lo])
 		}
+		mid := (lo + hi) / 2
+		return fmt.Sprintf("(ite (= ((_ extract %d %d) i) #b1) %s %s)", bit, bit, build(mid, hi, bit-1), build(lo, mid, bit-1))
 	}
-	return fmt.Sprintf("(define-fun %s () %s %s)", symName(tab.Name), asort, sb.String())
+	return fmt.Sprintf("(define-fun %s ((i %s)) %s %s)", symName(tab.Name), tab.Idx, tab.Elt, build(0, 1<<uint(w), w-1))
 }
 
 // Emit appends to out the declarations/definitions needed for t that are not yet in
